@@ -6,7 +6,7 @@ from common import Some, Nat, Raw, opt, coq
 LEVEL = "proof"
 COQ_IMPORTS = ["Tie.C20"]
 RULE = ("planar disks: jittered grids (2x2..7x7), fans, strips, L-shaped (non-convex) outlines, with scrambled vertex numbering, in arbitrary 3D "
-        "pose and scale 0.1..100; curved disks (paraboloid caps) for invariance under rigid motion; rejection inputs: closed boxes, two fans touching at a vertex, a disk together with a closed box, annuli (two "
+        "pose and scale 0.1..100; curved disks (paraboloid caps) for invariance under rigid motion; rejection inputs: closed boxes, a torus with a face removed (alone and together with a closed box), two fans touching at a vertex, a disk together with a closed box, annuli (two "
         "boundary loops), two components, non-manifold fins; UV maps: planar and sheared parametrisations with interior, edge and vertex "
         "barycentric queries. distinct = distinct (tag, input)")
 TRUSTED_BASE = [
@@ -102,7 +102,7 @@ def gen_flatten(rng):
         p2, f, kind = planar_disk(rng)
         cap = [[x, y, 0.05 * (x * x + y * y) / planar_disk.scale] for x, y in p2]      # gently curved at every scale
         return {"k": "c20.flatten", "verts": cap, "faces": f, "kind": "curved:" + kind, "flat": None, "expect": "ok", "moved": pose(rng, cap, aa, t)}
-    kind = rng.choice(["box", "annulus", "two", "fin", "bowtie", "bowtie", "disk+box"])
+    kind = rng.choice(["box", "annulus", "two", "fin", "bowtie", "bowtie", "disk+box", "holedtorus+box", "holedtorus"])
     if kind == "box":
         verts = [[float(i & 1), float((i >> 1) & 1), float((i >> 2) & 1)] for i in range(8)]
         f = [[0, 2, 1], [1, 2, 3], [4, 5, 6], [5, 7, 6], [0, 1, 4], [1, 5, 4], [2, 6, 3], [3, 6, 7], [0, 4, 2], [2, 4, 6], [1, 3, 5], [3, 7, 5]]
@@ -125,6 +125,23 @@ def gen_flatten(rng):
                 verts.append([math.cos(a), math.sin(a), 0.0])
                 idx.append(len(verts) - 1)
             f += [[0, idx[i], idx[i + 1]] for i in range(k)]
+        rng.shuffle(f)
+    elif kind in ("holedtorus+box", "holedtorus"):
+        # a torus with one face removed (Euler characteristic -1, one simple boundary loop), alone or together with a
+        # closed box (+2): the characteristic of the union is 1 although nothing here is a disk
+        n, m = rng.choice([(4, 3), (6, 5), (5, 4)])
+        verts = [[(3 + math.cos(2 * math.pi * j / m)) * math.cos(2 * math.pi * i / n), (3 + math.cos(2 * math.pi * j / m)) * math.sin(2 * math.pi * i / n),
+                  math.sin(2 * math.pi * j / m)] for i in range(n) for j in range(m)]
+        f = []
+        for i in range(n):
+            for j in range(m):
+                a, b, c2, d = i * m + j, ((i + 1) % n) * m + j, ((i + 1) % n) * m + (j + 1) % m, i * m + (j + 1) % m
+                f += [[a, b, c2], [a, c2, d]]
+        del f[rng.randrange(len(f))]
+        if kind == "holedtorus+box":
+            n0 = len(verts)
+            verts += [[10.0 + float(i & 1), float((i >> 1) & 1), float((i >> 2) & 1)] for i in range(8)]
+            f = f + [[a + n0 for a in ff] for ff in [[0, 2, 1], [1, 2, 3], [4, 5, 6], [5, 7, 6], [0, 1, 4], [1, 5, 4], [2, 6, 3], [3, 6, 7], [0, 4, 2], [2, 4, 6], [1, 3, 5], [3, 7, 5]]]
         rng.shuffle(f)
     elif kind == "disk+box":
         # a disk and a closed box: a single boundary loop, but not a disk
